@@ -5,7 +5,9 @@ mod dhcp;
 mod dnscache;
 mod dnswalk;
 mod dnswire;
+mod ingest;
 mod policy;
+mod radv;
 mod ratelimit;
 mod rig;
 mod righttp;
@@ -25,6 +27,8 @@ fn main() {
         "dnswire" => dnswire::main(&args[2..]),
         "dnscache" => dnscache::main(&args[2..]),
         "acl" => acl::main(&args[2..]),
+        "ingest" => ingest::main(&args[2..]),
+        "radv" => radv::main(&args[2..]),
         "rig" => rig::main(&args[2..]),
         "ratelimit" => ratelimit::main(&args[2..]),
         "store" => store::main(&args[2..]),
